@@ -186,6 +186,9 @@ theorem tokArgList_length (st : Style) (as : List (Option (List Char) × ArgVal)
 /-- what may follow a pattern: the end of the template or the closing brace of the context it is in -/
 def StopOk (rest : List Tok) : Prop := rest = [] ∨ ∃ t, rest = .ctxEnd :: t
 
+/-- … or, for the elements of a pattern, the pipe that starts its pipe list -/
+def StopOkP (rest : List Tok) : Prop := StopOk rest ∨ ∃ t, rest = .pipe :: t
+
 theorem parsePattern_of_elems (f : Nat) (ts : List Tok) (es : List Elem) (rest : List Tok)
     (h : parseElems f ts = some (es, rest)) (hs : StopOk rest) :
     parsePattern (f + 1) ts = some (Pat.ofList es, rest) := by
@@ -200,10 +203,10 @@ theorem tokElem_tag_head (st : Style) (c : Option (List Char)) (n : List Char) (
     (k : List (List Char × ArgVal)) (ctx : Option Pat) : ∃ xs, tokElem st (.tag c n a k ctx) = .tagStart :: xs := by
   cases c <;> cases ctx <;> simp [tokElem]
 
-theorem tokPat_head (st : Style) (p : Pat) (rest : List Tok) (hs : StopOk rest) :
+theorem tokPat_head (st : Style) (p : Pat) (rest : List Tok) (hs : StopOkP rest) :
     (tokPat st p ++ rest).head? ≠ some .ctxStart := by
   cases p with
-  | nil => rcases hs with rfl | ⟨t, rfl⟩ <;> simp [tokPat]
+  | nil => rcases hs with (rfl | ⟨t, rfl⟩) | ⟨t, rfl⟩ <;> simp [tokPat]
   | cons e p =>
     obtain ⟨x, xs, hx, hne⟩ := tokElem_head st e
     simp [tokPat, hx, hne]
@@ -272,7 +275,7 @@ mutual
       | none =>
         simp only [tokElem, List.nil_append, List.cons_append, List.length_cons, List.length_append, List.length_nil] at hf
         obtain ⟨f, rfl⟩ : ∃ f, fuel = f + 3 := ⟨fuel - 3, by omega⟩
-        have he := parseElems_tok st hst p hp f (.ctxEnd :: rest) (Or.inr ⟨rest, rfl⟩) (by omega)
+        have he := parseElems_tok st hst p hp f (.ctxEnd :: rest) (Or.inl (Or.inr ⟨rest, rfl⟩)) (by omega)
         have hpat := parsePattern_of_elems f _ _ _ he (Or.inr ⟨rest, rfl⟩)
         rw [ofList_toList] at hpat
         have h := parseTagBody_tok st hst none name args kwargs (some p) ha hk hnd (f + 1) rest hr (by omega)
@@ -283,7 +286,7 @@ mutual
       | some c =>
         simp only [tokElem, List.nil_append, List.cons_append, List.length_cons, List.length_append, List.length_nil] at hf
         obtain ⟨f, rfl⟩ : ∃ f, fuel = f + 3 := ⟨fuel - 3, by omega⟩
-        have he := parseElems_tok st hst p hp f (.ctxEnd :: rest) (Or.inr ⟨rest, rfl⟩) (by omega)
+        have he := parseElems_tok st hst p hp f (.ctxEnd :: rest) (Or.inl (Or.inr ⟨rest, rfl⟩)) (by omega)
         have hpat := parsePattern_of_elems f _ _ _ he (Or.inr ⟨rest, rfl⟩)
         rw [ofList_toList] at hpat
         have h := parseTagBody_tok st hst (some c) name args kwargs (some p) ha hk hnd (f + 1) rest hr (by omega)
@@ -293,12 +296,12 @@ mutual
         exact h
 
   theorem parseElems_tok (st : Style) (hst : StyleOk st) (p : Pat) (hwf : WFPat p) (fuel : Nat) (rest : List Tok)
-      (hs : StopOk rest) (hf : (tokPat st p).length + 1 ≤ fuel) :
+      (hs : StopOkP rest) (hf : (tokPat st p).length + 1 ≤ fuel) :
       parseElems fuel (tokPat st p ++ rest) = some (p.toList, rest) := by
     match p with
     | .nil =>
       obtain ⟨f, rfl⟩ : ∃ f, fuel = f + 1 := ⟨fuel - 1, by omega⟩
-      rcases hs with rfl | ⟨t, rfl⟩ <;> simp [tokPat, parseElems, Pat.toList]
+      rcases hs with (rfl | ⟨t, rfl⟩) | ⟨t, rfl⟩ <;> simp [tokPat, parseElems, Pat.toList]
     | .cons (.raw s) q =>
       simp only [WFPat, WFElem] at hwf
       simp only [tokPat, tokElem, List.length_append, List.length_cons, List.length_nil] at hf
@@ -329,7 +332,7 @@ end
     (twice the token count) is shown to be enough. -/
 theorem parse_print_tokens (st : Style) (hst : StyleOk st) (p : Pat) (hwf : WFPat p) :
     parseTokens (tokPat st p) = some p := by
-  have he := parseElems_tok st hst p hwf (2 * (tokPat st p).length + 1) [] (Or.inl rfl) (by omega)
+  have he := parseElems_tok st hst p hwf (2 * (tokPat st p).length + 1) [] (Or.inl (Or.inl rfl)) (by omega)
   have hp := parsePattern_of_elems _ _ _ _ he (Or.inl rfl)
   rw [ofList_toList, List.append_nil] at hp
   simp only [parseTokens, hp]
